@@ -26,7 +26,7 @@ LEVEL_TEXT = ("Scenarios with continuous release, deaths by IBM age limit and by
 LEVEL_NOTE = ("Tolerance 1e-9 with float64 forcing files, 2e-6 relative (f4 output precision) with float32 forcing files because u += dU accumulates in a different order after a restart. An additional final "
               "record at the stop time in the restarted run and a different default reference time are documented behaviour and are not judged.")
 RULE = ("case = scenario; every completed file except the last is a restart point. Non-trivial restart point: particles are released and die after it; distinct by scenario parameters and file index.")
-MANDATORY = ["packed_variable_in_the_restart_file", "time_reversed_run_restarted", "inactive_particles_carried_over_the_restart", "release_file_time_off_the_frequency_axis", "output_root_ending_in_digit_or_underscore", "forcing_frames_between_model_steps", "forcing_in_several_files", "restart_between_forcing_files", "restart_points", "records_compared", "newest_pids_dead_in_last_record", "newest_pids_dead_in_last_record_no_particle_variables", "new_release_after_restart", "death_after_restart", "left_grid", "duration_not_multiple_of_period", "scheme_EF", "scheme_RK2", "scheme_RK4",
+MANDATORY = ["restart_from_a_file_whose_last_record_is_empty", "packed_variable_in_the_restart_file", "time_reversed_run_restarted", "inactive_particles_carried_over_the_restart", "release_file_time_off_the_frequency_axis", "output_root_ending_in_digit_or_underscore", "forcing_frames_between_model_steps", "forcing_in_several_files", "restart_between_forcing_files", "restart_points", "records_compared", "newest_pids_dead_in_last_record", "newest_pids_dead_in_last_record_no_particle_variables", "new_release_after_restart", "death_after_restart", "left_grid", "duration_not_multiple_of_period", "scheme_EF", "scheme_RK2", "scheme_RK4",
              "particle_variable_compared", "file_names_compared"]
 ASSUMPTIONS = ["diffusion off (as the property states)", "sparse layout (warm start reads particle_count)"]
 TIMEOUT = {"quick": 1200, "thorough": 3500}
@@ -39,6 +39,8 @@ def gen_cases(tier: str, seed: int) -> list[dict[str, Any]]:
     cases += [dict(seed=seed, idx=10**6 + i, gap=True) for i in range(2 if tier == "quick" else 60)]
     # restart points where the newest particles are in the warm-start file but dead in its last record (older ones alive)
     cases += [dict(seed=seed, idx=2 * 10**6 + i, newest_dead=True) for i in range(4 if tier == "quick" else 200)]
+    # restart points whose file ends with an empty record (everybody died before it), new particles being released later on
+    cases += [dict(seed=seed, idx=3 * 10**6 + i, empty_rec=True) for i in range(3 if tier == "quick" else 120)]
     return cases
 
 
@@ -64,7 +66,7 @@ def build(case: dict[str, Any]):
             c = int(rng.integers(1, min(left, 3) + 1))
             nfiles.append(c)
             left -= c
-    offgrid = case["idx"] % 4 == 2 and not case.get("gap") and not case.get("newest_dead")
+    offgrid = case["idx"] % 4 == 2 and not case.get("gap") and not case.get("newest_dead") and not case.get("empty_rec")
     frame_secs = [f * dt for f in fr]
     if offgrid:  # forcing interval not a multiple of dt: frames fall between model steps
         frame_secs = [-dt + k * 1000 for k in range((ns + 2) * dt // 1000 + 3)]
@@ -116,9 +118,21 @@ def build(case: dict[str, Any]):
         world["files"] = [2]
         rows = [[C.T0, 17.2, 8.4, 5.0], [C.T0, 15.7, 9.6, 8.0], [C.T0, 3.0, 7.5, 2.0], [C.T0, 3.1, 6.5, 2.0]]
         lifetime = 100 * dt
+    discrete = False
+    if case.get("empty_rec"):
+        P, numrec = 1, 2 + (case["idx"] % 2)
+        ns = 10 + (case["idx"] % 3)
+        world["vel"] = dict(kind="const", u=0.1 * dx / dt, v=0.05 * dx / dt)
+        world["frames"] = [-dt, (ns + 3) * dt]
+        world["files"] = [2]
+        t7 = str(tadd(C.T0, 7 * dt))
+        rows = [[C.T0, 7.2, 8.4, 5.0], [C.T0, 8.7, 9.6, 8.0], [C.T0, 9.0, 7.5, 2.0], [t7, 10.2, 6.5, 2.0], [t7, 11.4, 7.7, 12.0]]
+        lifetime = 2 * dt  # alive in the records of their first two steps only
+        discrete = True
     pvars = not (case.get("gap") and case["idx"] % 2 == 1) and not (case.get("newest_dead") and case["idx"] % 4 < 2) and not (not case.get("gap") and case["idx"] % 5 in (1, 4))
+    pvars = pvars or bool(case.get("empty_rec"))
     run = dict(start=C.T0, stop=str(tadd(C.T0, ns * dt)), dt=dt, reference="2020-01-01T00:00:00" if case["idx"] % 2 else None, advection=scheme, extra_forcing=["temp"],
-               release=dict(columns=["release_time", "X", "Y", "Z"], rows=rows, header=True, continuous=True, freq=freq * dt),
+               release=dict(columns=["release_time", "X", "Y", "Z"], rows=rows, header=True, continuous=not discrete, freq=freq * dt),
                state=dict(instance_variables=dict(age="float", weight="float", temp="float"), particle_variables=dict(release_time="time") if pvars else {},
                           default_values=dict(age=0.0, weight=1.0, temp=0.0)),
                ibm=dict(module=C.REC_IBM, age=True, lifetime=lifetime, weight_from="temp", weight_from_position=True, log=False),
@@ -131,7 +145,7 @@ def build(case: dict[str, Any]):
         # the IBM switches particles off (alive, not moved); the standard state variable `active` is part of the output so that a restart can carry it on
         run["ibm"]["deactivate_time"] = {str(tadd(C.T0, dt)): [0], str(tadd(C.T0, 2 * dt)): [1]}  # keyed by model time: a restarted run counts its steps anew
         run["output"]["instance"]["active"] = "i1"
-    rev = bool(case["idx"] % 5 == 3 and not case.get("gap") and not case.get("newest_dead"))
+    rev = bool(case["idx"] % 5 == 3 and not case.get("gap") and not case.get("newest_dead") and not case.get("empty_rec"))
     if rev:
         # the same set-up run backwards in time: every time t of the release table and of the IBM schedule is mirrored to T0 + ns*dt - (t - T0)
         end = np.datetime64(C.T0, "s") + np.timedelta64(ns * dt, "s")
@@ -203,6 +217,7 @@ def run_case(case: dict[str, Any], wd: Path) -> dict[str, Any]:
         sit["restart_points_with_pid_gap"] = sit.get("restart_points_with_pid_gap", 0) + int(pid_gap)
         last_max = int(fk.records[-1].pid.max()) if len(fk.records[-1].pid) else -1
         newest_dead = last_max + 1 < snap["npid"] and not pid_gap  # newest particles are in the file but no longer in its last record
+        sit["restart_from_a_file_whose_last_record_is_empty"] = sit.get("restart_from_a_file_whose_last_record_is_empty", 0) + int(len(fk.records[-1].pid) == 0 and snap["npid"] > 0)
         sit["newest_pids_dead_in_last_record"] = sit.get("newest_pids_dead_in_last_record", 0) + int(newest_dead)
         sit["newest_pids_dead_in_last_record_no_particle_variables"] = sit.get("newest_pids_dead_in_last_record_no_particle_variables", 0) + int(newest_dead and fk.nparticle_dim == 0)
         fr_s = scn["world"]["frames"]
